@@ -75,6 +75,22 @@ CLAIMS = {
 }
 NA = {}
 
+# clauses added in seeding round 7 (DESIGN.md 9.5 "Round 7")
+ROUND7 = {
+ "C01": "Only UnregisterRemoteSKI / CancelPairingWithSKI clear the trusted flag; no handshake state but the initial one maps to the dial permission Queued (imported from C18.R3).",
+ "C03": "The hub calls into connections with no hub mutex held (imported from C08.R8); the learned SHIP ID is reported with the stored value (imported from C09.R1).",
+ "C05": "Registry access under the normalised SKI (imported from C15.R1); trust writers (imported from C01.R4).",
+ "C08": "Hub calls CloseConnection / AbortPendingHandshake / ApprovePendingHandshake as open calls (interprocedural may-locksets); write failures end the connection (imported from C13.R2); hand-over counterpart never takes the held mutex (imported from C19.R5).",
+ "C09": "A path on which decoding the access-methods message failed never approves; the reported id is loaded after the store.",
+ "C10": "Shutdown sets its flag before it closes anything; registry delete under the identity check (imported from C11.R3).",
+ "C12": "No mutex of the websocket connection is acquired while the calling chain may already hold it.",
+ "C13": "The read pump's message source never marks or closes the connection itself.",
+ "C15": "A strings.Map normaliser is evaluated for every ASCII rune by an SSA interpreter; RegisterRemoteSKI records trust on every path (imported from C10.R1).",
+ "C16": "No element of the TXT list is overwritten after the list was built.",
+ "C17": "The visible-services list is built by ranging over the reported snapshot.",
+ "C19": "Shutdown clears the stored request before the daemon connection is torn down; a timer waited on inside a loop is created or reset in that loop.",
+}
+
 # clauses added in seeding round 6 (DESIGN.md 9.5 "Round 6")
 ROUND6 = {
  "C03": "The setup callback is reached only by the run that entered Approved (E1 path flag: exactly once, also against a timer expiry during the callback); the trust predicate returns exactly the stored flag (imported from C01.R4).",
@@ -128,6 +144,8 @@ for p in props:
             text = text + " Round 5: " + ROUND5[i]
         if i in ROUND6:
             text = text + " Round 6: " + ROUND6[i]
+        if i in ROUND7:
+            text = text + " Round 7: " + ROUND7[i]
         checks.append({
             "property_id": i,
             "quick_cmd": f"./check.sh {i} quick",
